@@ -48,6 +48,7 @@ func mustSchema(sdl string) *gast.Schema {
 // subgraph requests in flight together), chains of @requires
 var curated = map[string][]string{
 	"S-core": {`{me {nick} user(id: "u1") {nick}}`, `{me {reviews {body}} user(id: "u1") {reviews {body}}}`, `{me {favorite {title}} topProducts(first: 1) {title}}`},
+	"S-nv":   {`{ things { ... on User { ref: id nick } ... on Admin { ref: code level } } }`, `{ things { __typename ... on Admin { ref: id code level } ... on User { ref: id name nick } } }`, `{ thing { ... on User { ref: id nick } ... on Admin { ref: code level name } } }`},
 	"S-areq": {`{parcels {dims {size(unit: INCH)} shipping label}}`, `{parcels {weight box dims {size kind} shipping}}`, `{parcel {weight(unit: G) label shipping}}`},
 	"S-nreq": {`{accounts {label name}}`, `{accounts {id label note name}}`, `{accounts {badge label address {city} note}}`, `{account {label name}}`},
 	"S-req":  {`{items {summary}}`, `{items {id summary volume}}`, `{boxes {content {summary}}}`, `{item(id: "i1") {summary shipping}}`},
@@ -93,8 +94,25 @@ func families(run *vk.Run) []*family {
 		}
 		return f
 	}
-	core, abs, req, shapes, nreq, areq := fedlab.SCore(), fedlab.SAbs(), fedlab.SReq(), fedlab.SShapes(), fedlab.SNReq(), fedlab.SAReq()
-	return []*family{
+	core, abs, req, shapes, nreq, areq, nv := fedlab.SCore(), fedlab.SAbs(), fedlab.SReq(), fedlab.SShapes(), fedlab.SNReq(), fedlab.SAReq(), fedlab.SNV()
+	// a subgraph stricter than the supergraph (ID! vs ID): member fields fetched
+	// under generated merge aliases
+	fnv := mk("S-nv", nv, fedlab.SNVUniverse(nv), nil, func(r fedlab.FieldRef) int {
+		switch r.String() {
+		case "User.nick", "Admin.level":
+			return 1
+		case "Admin.code":
+			return 2
+		}
+		return 0
+	})
+	for _, l := range fnv.layouts {
+		l.SubgraphType = map[fedlab.FieldRef]map[int]string{
+			{Type: "User", Field: "id"}:  {0: "ID!", 1: "ID!", 2: "ID!"},
+			{Type: "Admin", Field: "id"}: {0: "ID!", 1: "ID!", 2: "ID!"},
+		}
+	}
+	fams := []*family{
 		mk("S-core", core, fedlab.SCoreUniverse(core), func(t, f string) [][]fedlab.ArgUse {
 			switch t + "." + f {
 			case "Query.user":
@@ -200,6 +218,7 @@ func families(run *vk.Run) []*family {
 			return 0
 		}),
 	}
+	return append(fams, fnv)
 }
 
 // keysChain: S-keys with a chain of keys over three subgraphs.
